@@ -6,11 +6,11 @@ import radlib as R
 ID = "C03"
 project = WP.make_project("C02")
 relevant_verdict = WP.make_relevant(ID, also=("C01:user-password",))
-LEAN_TARGETS = ["Rsp.Props.C03", "Rsp.Tie.C03"]
+LEAN_TARGETS = ["Rsp.Props.C03", "Rsp.Tie.C03", "Rsp.Props.C03Stage"]
 THEOREMS = ["Rsp.Crypt.rfc_decrypt_encrypt", "Rsp.Crypt.pwdLoop_enc", "Rsp.Crypt.pwdLoop_dec", "Rsp.Crypt.recrypt_core",
             "Rsp.Props.C03.pwdrecrypt_meets_spec", "Rsp.Props.C03.msmpprecrypt_meets_spec",
             "Rsp.Props.C03.pwdrecrypt_rejects", "Rsp.Props.C03.msmpprecrypt_rejects",
-            "Rsp.Tie.C03.pwdLenBad_tie", "Rsp.Tie.C03.msmppLenBad_tie"]
+            "Rsp.Tie.C03.pwdLenBad_tie", "Rsp.Tie.C03.msmppLenBad_tie", "Rsp.Props.C03.forward_bad_password_drops"]
 RULE = ("real pwdrecrypt/msmpprecrypt called on every value length 0..255 x random contents, secrets (1..255 octets, binary), authenticators and salts; "
         "plus md5/hmac-md5 vectors comparing the Lean hash with nettle; non-trivial = valid length (the value is actually re-encrypted), distinct by content")
 EXHAUSTIVE = {"quick": ["every ciphertext length 0..255 for pwdrecrypt (with and without salt) and msmpprecrypt (x sampled contents)"],
@@ -18,7 +18,7 @@ EXHAUSTIVE = {"quick": ["every ciphertext length 0..255 for pwdrecrypt (with and
 ASSUMPTIONS = ["MD5 is a parameter of every theorem (only |md5 x| = 16 is used); the executable Lean MD5 used by the driver is compared with nettle on every run",
                "secret lengths < 256 (pwdcrypt takes the length as uint8_t; the property quantifies over 1..255)"]
 LEVEL_TEXT = ("Lean 4 theorems, for every hash function with 16-octet output: the C block loops equal the RFC 2865/2868/2548 definitions; re-encryption preserves the "
-              "plaintext under the new secret/authenticator/salt (pwdrecrypt_meets_spec, msmpprecrypt_meets_spec, all lengths, all contents); invalid lengths are rejected. "
+              "plaintext under the new secret/authenticator/salt (pwdrecrypt_meets_spec, msmpprecrypt_meets_spec, all lengths, all contents); invalid lengths are rejected, and in the model of radsrv a request whose User-Password is so rejected takes no identifier of any server (forward_bad_password_drops). "
               "Tied to the code by tie theorems on both regenerated length guards and by differential runs of the real functions over every length 0..255 under ASan/UBSan.")
 LEVEL_NOTE = ("Trusted: Lean kernel + std axioms; harness; nettle as the reference for the driver's MD5. Modelled: pwdcrypt/pwdrecrypt/msmpp*crypt. The walk over "
               "attributes in replyh (which attributes are re-encrypted, drop on failure) is covered at message level (C02/C04 checks).")
